@@ -23,6 +23,7 @@ func checkC01(p *Prog, r *Report) {
 	checkFullStrongSum(p, r)
 	checkReadContract(p, r)
 	checkWindowFullyRead(p, r, "C01/WINDOW-FULLY-READ")
+	checkSuccessMeansReplaced(p, r)
 	checkWholeFileSendsAll(p, r)
 	// shared necessary conditions (rule ids keep their home property's prefix)
 	checkC02(p, r)
